@@ -17,7 +17,7 @@ package broadcast
 //       receive-only channel, and the only close() in this package runs under mtx (stability, used when
 //       time passes inside a critical section: callbacks, ctx.Err())
 //
-//@ ghostmap issuedBy: ref -> ref
+//@ ghostmap issuedBy: ref -> ref once
 //@ ghostmap gettime: ref -> int
 //
 //@ object Broadcast
